@@ -99,7 +99,11 @@ var $callDeferred = (deferred, jsErr, fromPanic) => {
         $callDeferred(deferred, e, fromPanic);
     } finally {
         if (localPanicValue !== undefined) {
-            if ($panicStackDepth !== null) {
+            // Keep the panic pending only if a deferred call blocked: it is resumed
+            // together with the goroutine. Otherwise an exception is unwinding the
+            // stack past this panic (a newer panic was recovered further down, or
+            // replaced this one), which ends it.
+            if ($panicStackDepth !== null && $curGoroutine.asleep) {
                 $curGoroutine.panicStack.push(localPanicValue);
             }
             $panicStackDepth = outerPanicStackDepth;
